@@ -40,12 +40,11 @@ Proof.
     - destruct (N.eqb b 10).
       + cbn [drop g_parse_reason_m1]. destruct seen; reflexivity.
       + unfold reason_byte, is, SP. rewrite in_rng_range.
-        change (N.leb 128 b) with (128 <=? b).
-        destruct (N.eqb b 9 || N.eqb b 32 || in_range 33 126 b || (128 <=? b)) eqn:Hc;
-          cbn [negb]; [|reflexivity].
-        destruct (128 <=? b) eqn:Ho.
-        * unfold set_g_parse_reason_m1. rewrite IH. rewrite orb_true_r. reflexivity.
-        * rewrite IH. rewrite orb_false_r. reflexivity. }
+        change (N.leb 128 b) with (128 <=? b). rewrite ?N.ltb_antisym.
+        (* whatever boolean form the source gives the class test (negated disjunction, conjunction of negations,
+           `<` for `!(>=)`): split on its four atoms *)
+        destruct (N.eqb b 9), (N.eqb b 32), (in_range 33 126 b), (128 <=? b); cbn [negb andb orb];
+          try reflexivity; unfold set_g_parse_reason_m1; rewrite IH; rewrite ?orb_true_r, ?orb_false_r; reflexivity. }
   imp_unfold. unfold set_g_parse_reason_m1.
   specialize (HL fuel false c). unfold to_out in HL.
   destruct (iloop _ _ _ _ _) as [a l' c'|l'|e l'|f0 l'|x l' c']; try exact HL.
